@@ -19,7 +19,7 @@ import numpy
 from .. import compat  # noqa: F401
 import hashlib
 from ..core import Violation, require, digest, close
-from ..env import ScriptedGenerator, TWO53
+from ..env import ScriptedGenerator, ScriptedRandomState, TWO53
 from ..explore import explore, Chooser
 from ..ref import optim as R
 
@@ -51,6 +51,7 @@ ASSUME = ["numpy's generators can return exactly the answers injected (k-tuples 
 SORT = "SortingSubsetOptimizationAlgorithm"
 HILL = "SteepestDescentSubsetHillClimber"
 SHILL = "SortingSteepestDescentSubsetHillClimber"
+HILL_RS = HILL + "[RandomState]"          # same class, rng is a numpy.random.RandomState
 
 
 def _dg(*parts):
@@ -175,6 +176,8 @@ def _l1_shards(tier, seed):
         per = max(1, target // (n ** k))
         for i in range(0, len(probs), per):
             out.append(("L1", HILL, n, k, probs[i:i + per]))
+        if n <= 3:
+            out.append(("L1", HILL_RS, n, k, probs))
         # the two generator-free optimisers: one execution per problem
         sp = [(ok, cn, v) for ok in oks for cn in cns for v in vecs if ok.startswith("sep")]
         for i in range(0, len(sp), target // 2):
@@ -199,6 +202,8 @@ def l1_run(ctx, algo, spec, answers=None):
     before = R.snapshot(prob)
     cand = spec["cand"]
     k = spec["k"]
+    rs = algo == HILL_RS
+    algo = HILL if rs else algo
     cls = _algo_cls(algo)
     cache = {}
     separable = all(o["pair"] is None for o in spec["obj"])
@@ -207,7 +212,7 @@ def l1_run(ctx, algo, spec, answers=None):
     def run(ch):
         h = R.InitialDrawHandler(ch)
         if algo == HILL:
-            opt = cls(rng=ScriptedGenerator(h))
+            opt = cls(rng=ScriptedRandomState(h) if rs else ScriptedGenerator(h))
         else:
             opt = cls()
         try:
@@ -226,8 +231,8 @@ def l1_run(ctx, algo, spec, answers=None):
     for ch, (soln, err, h) in it:
         ctx.evaluations += 1
         ctx.transitions += 1
-        ctx.count(f"L1:exec:{algo}")
-        case = dict(layer="L1", algo=algo, spec=spec, answers=list(ch.taken))
+        ctx.count(f"L1:exec:{algo}" + ("[RandomState]" if rs else ""))
+        case = dict(layer="L1", algo=HILL_RS if rs else algo, spec=spec, answers=list(ch.taken))
 
         def oracle():
             if err is not None:
@@ -280,9 +285,9 @@ def _l1_oracle(ctx, algo, prob, before, spec, soln, h, cache, brute, separable):
         require(not loc, P + "not-local-optimum",
                 lambda: f"returned {list(key)} (cv,score)={loc[2]} but exchanging position {loc[0]} for member {loc[1]} gives {loc[3]}")
     # bookkeeping
-    first = None
-    if algo == HILL and h.seen:
-        first = True
+    if algo == HILL and h.last is not None and sorted(h.last) != sorted(key):
+        ctx.flag("L1:climber-moved")
+        ctx.count("L1:climber-moved")
     pk = cache.get("pk")
     if pk is None:
         pk = cache["pk"] = _dg(spec)
@@ -457,11 +462,47 @@ def _l2_rows(op, out, parents, k, P):
     return list(out.reshape(-1, k))
 
 
+def _fact(n):
+    out = 1
+    for i in range(2, n + 1):
+        out *= i
+    return out
+
+
+def _tiled(a, size):
+    """number of answers of tiled_choice(a, size): (a!)^(size//a) * a!/(a - size%a)!"""
+    if a <= 0:
+        return 1
+    return _fact(a) ** (size // a) * (_fact(a) // _fact(a - size % a))
+
+
+def l2_estimate(op, n, k, par, nind=1):
+    """rough number of answer vectors of one case (used to balance shards and to bound the scope)."""
+    if op in (MSH, MA, MB):
+        if k == n:
+            return 5
+        nh = par["nhcstep"] or k
+        if op == MSH:
+            hill = _tiled(k, nh) * (n - k) ** nh * 2
+        else:
+            hill = _tiled(k, nh) * _tiled(n - k, nh) * (nh if op == MA else 2)
+        return 2 * hill + 3
+    if op == MSD:
+        nu = len(par["umenu"]) ** nind
+        return nu * (1 + k) if nind == 1 else nu * (1 + 2 * k + 2 * k * k)
+    return 1
+
+
 def _l2_shards(tier, seed):
     T = tier == "thorough"
-    out = []
+    groups = []      # (cost, (op, n, k, land, plist, par))
     nmax = 6 if T else 5
     lab = LABELS[seed % 3]
+    cap_case = 6000 if T else 700          # memetic cases with more answers than this are outside the scope
+
+    def add(op, n, k, land, plist, par, each):
+        groups.append((each * len(plist), (op, n, k, land, plist, par)))
+
     for n in range(1, nmax + 1):
         for k in sorted(set(list(range(1, min(n, 3) + 1)) + [n])):
             if k > 4 or (n == 6 and k > 3):
@@ -469,54 +510,64 @@ def _l2_shards(tier, seed):
             cand = lab[:n]
             perms = R.ordered_subsets(cand, k)
             combs = [c for c in itertools.combinations(cand, k)]
-            spec1 = ("anti",)
-            # sampling
             m = len(perms)
-            ns = 2 if m * m <= (15000 if T else 4000) else 1
-            out.append(("L2", SAMP, n, k, "anti", [ns] + ([1] if ns == 2 else []), {}))
+            # sampling: one and (where m^2 is small) two rows
+            add(SAMP, n, k, "anti", [1], {}, m)
+            if m * m <= (15000 if T else 4000):
+                add(SAMP, n, k, "anti", [2], {}, m * m)
             # crossover: all ordered pairs of ordered parents, one mating; a diagonal with two matings
-            pairs = [[[list(a)], [list(b)]] for a in perms for b in perms]
-            if not T and len(pairs) > 4000:
-                # quick: first parent in its sorted order and reversed only
+            firsts = perms
+            if not T and m * m > 4000:   # quick: first parent in sorted and reversed order only
                 firsts = [c for c in combs] + [tuple(reversed(c)) for c in combs if k > 1]
-                pairs = [[[list(a)], [list(b)]] for a in firsts for b in perms]
-            step = 1500
-            for i in range(0, len(pairs), step):
-                out.append(("L2", XO, n, k, "anti", pairs[i:i + step], {}))
-            cov = perms[:: max(1, len(perms) // 6)][:6]
-            two = [[[list(a), list(c)], [list(b), list(d)]] for a in cov for b in cov for c in cov[:3] for d in cov[-3:]]
-            out.append(("L2", XO, n, k, "anti", two, {}))
+            for a in firsts:
+                add(XO, n, k, "anti", [[[list(a)], [list(b)]] for b in perms], {}, 3)
+            cov = perms[:: max(1, m // 6)][:6]
+            add(XO, n, k, "anti", [[[list(a), list(c)], [list(b), list(d)]] for a in cov for b in cov for c in cov[:3] for d in cov[-3:]], {}, 6)
             # plain mutation
-            indiv = [[list(a)] for a in perms] + [[list(a), list(b)] for a in cov for b in cov]
-            out.append(("L2", MUT, n, k, "anti", indiv, {}))
+            add(MUT, n, k, "anti", [[list(a)] for a in perms] + [[list(a), list(b)] for a in cov for b in cov], {}, 1)
             # memetic mutations (need >= 2 objectives)
-            inds = perms if (T or len(perms) <= 24) else ([c for c in combs] + [tuple(reversed(c)) for c in combs])
+            if n > 5:
+                continue
+            inds = perms if (T or m <= 24) else ([c for c in combs] + [tuple(reversed(c)) for c in combs])
             lands = LANDS if T else ("mixed", "anti+ineq")
             if k == n and n > 3:
-                lands = lands[:1]          # degenerate full-set case: one landscape is enough
-                inds = inds[:2]
+                lands, inds = lands[:1], inds[:2]      # degenerate full-set case: one landscape is enough
             for land in lands:
                 for opn in (MSH, MA, MB):
-                    for nh in ((None, 1, k + 1) if (T or k <= 2) else (None, 1)):
+                    for nh in (None, 1, k + 1):
                         par = dict(phc=0.5, nhcstep=nh, umenu=(0.25, 0.75, 0.0, 0.5, TOP))
-                        chunk = 20 if nh == k + 1 else 60
-                        for i in range(0, len(inds), chunk):
-                            out.append(("L2", opn, n, k, land, [[list(a)] for a in inds[i:i + chunk]], par))
-                pops = [[list(a)] for a in inds] + [[list(a), list(b)] for a in cov for b in cov]
+                        est = l2_estimate(opn, n, k, par)
+                        if est > cap_case:
+                            continue
+                        for i in range(0, len(inds), 10):
+                            add(opn, n, k, land, [[list(a)] for a in inds[i:i + 10]], par, est)
                 par = dict(phc=0.5, umenu=(0.25, TOP))
-                for i in range(0, len(pops), 40):
-                    out.append(("L2", MSD, n, k, land, pops[i:i + 40], par))
+                for i in range(0, len(inds), 20):
+                    add(MSD, n, k, land, [[list(a)] for a in inds[i:i + 20]], par, l2_estimate(MSD, n, k, par, 1))
+                add(MSD, n, k, land, [[list(a), list(b)] for a in cov for b in cov], par, l2_estimate(MSD, n, k, par, 2))
     # integer operators
     full = (0.25, 0.75, 0.0, 1.0 / TWO53, 0.5, 0.5 + 2.0 ** -53, TOP)
     small = (0.4, 0.75, 0.0, TOP)
     for lo, hi, menu in (([-1], [2], full), ([0, -1], [2, 0] if not T else [3, 0], small), ([2, 0], [2, 1], full)):
         vecs = [list(v) for v in itertools.product(*[range(a, b + 1) for a, b in zip(lo, hi)])]
-        pairs = [[[a], [b]] for a in (vecs if (T or len(lo) == 1) else vecs[::2]) for b in vecs]
-        for i in range(0, len(pairs), 8):
-            out.append(("L2", ISBX, lo, hi, None, pairs[i:i + 8], dict(umenu=menu)))
-        pops = [[a] for a in vecs] + ([[a, b] for a in vecs[:2] for b in vecs[-2:]] if (len(lo) == 1 or T) else [])
-        for i in range(0, len(pops), 4):
-            out.append(("L2", IPM, lo, hi, None, pops[i:i + 4], dict(umenu=full if len(lo) == 1 else small)))
+        free = sum(1 for a, b in zip(lo, hi) if a != b)
+        for a in (vecs if (T or len(lo) == 1) else vecs[::2]):
+            add(ISBX, lo, hi, None, [[[a], [b]] for b in vecs], dict(umenu=menu), len(menu) ** (1 + 2 * free))
+        pm = full if len(lo) == 1 else small
+        add(IPM, lo, hi, None, [[a] for a in vecs], dict(umenu=pm), len(pm) ** (len(lo) + free))
+        if len(lo) == 1 or T:
+            add(IPM, lo, hi, None, [[a, b] for a in vecs[:2] for b in vecs[-2:]], dict(umenu=pm), len(pm) ** (2 * len(lo) + 2 * free) // 4)
+    # balance: consecutive groups are merged until the estimated cost reaches the target
+    target = 8000 if T else 2500
+    out, cur, cost = [], [], 0
+    for c, g in groups:
+        cur.append(g)
+        cost += c
+        if cost >= target:
+            out.append(("L2", cur))
+            cur, cost = [], 0
+    if cur:
+        out.append(("L2", cur))
     return out
 
 
@@ -746,18 +797,32 @@ def _l3_shards(tier, seed):
 
 # ----------------------------------------------------------------------------
 def run_shard(spec, ctx):
-    ctx.bounds.update({"L1_n_max": 5, "L1_score_alphabet": 3,
-                       "L1_note": "n=5: k=3 over a 2-value alphabet in the quick tier; k>=4 thorough only, 2-value alphabet"})
+    T = ctx.tier == "thorough"
+    ctx.bounds.update({
+        "L1": "n<=5 candidates, all k<=n, score vectors = alphabet^n (3 values; 2 values for n=4,k>=3 / n=5,k>=2 quick, "
+              "n=5,k>=4 thorough; n=5,k>=4 thorough only), objective in {separable, separable weight -1, 3 pair-interaction "
+              "tables}, constraints in {none, ineq, eq, both, all-infeasible}; every answer of the initial rng.choice call",
+        "L1_exhaustive": True,
+        "L2": f"set space n<={6 if T else 5} (memetic operators n<=5), k<=min(n,3) plus k==n (<=4); parents = all ordered "
+              "k-subsets (quick, n=5,k=3: sorted/reversed order for the first parent); every answer of numpy.random.choice/"
+              "randint/binomial, random() from a menu of reachable values incl. 0, the thresholds and 1-2^-53; memetic cases "
+              f"with more than {6000 if T else 700} answer vectors (large nhcstep) are not generated; integer operators: "
+              "boxes [-1,2], [0,2|3]x[-1,0], [2,2]x[0,1], all parent vectors, random() cells from a 4- or 7-value menu",
+        "L2_exhaustive": True,
+        "L3": f"13 GA classes x explicit tiny problem family x pop_size in (4,8) x ngen in (1,2,3) x pinned generator seeds "
+              f"0..{len(l3_seeds(ctx.tier)) - 1}",
+        "L3_exhaustive": "problems and hyper-parameters only; generator states are a finite list, NOT exhaustive",
+    })
     layer = spec[0]
     if layer == "L1":
         _, algo, n, k, probs = spec
         for ok, cn, vec in probs:
             l1_run(ctx, algo, l1_spec(ctx.seed, n, k, ok, cn, vec))
     elif layer == "L2":
-        _, op, n, k, land, plist, par = spec
-        sp = int_spec(n, k) if op in (ISBX, IPM) else l2_problem(ctx.seed, n, k, land)
-        for parents in plist:
-            l2_run(ctx, op, sp, parents, par)
+        for op, n, k, land, plist, par in spec[1]:
+            sp = int_spec(n, k) if op in (ISBX, IPM) else l2_problem(ctx.seed, n, k, land)
+            for parents in plist:
+                l2_run(ctx, op, sp, parents, par)
     elif layer == "L3":
         _, cname, probs, hyp, seeds = spec
         for tag, sp in probs:
@@ -767,12 +832,34 @@ def run_shard(spec, ctx):
 
 
 def finalize(ctx, tier, seed):
-    for a in (SORT, HILL, SHILL):
-        assert ctx.counters.get(f"L1:exec:{a}", 0) > 0, a
-    for f in ("L1:ties", "L1:constant-objective", "L1:k==n", "L1:non-separable", "L1:constrained", "L1:returned-infeasible"):
+    c = ctx.counters
+    # ---- L1
+    for a in (SORT, HILL, SHILL, HILL_RS):
+        assert c.get(f"L1:exec:{a}", 0) > 0, a
+    for f in ("L1:ties", "L1:constant-objective", "L1:k==n", "L1:non-separable", "L1:constrained", "L1:returned-infeasible",
+              "L1:climber-moved"):
         assert f in ctx.flags, f
     assert "L1:init-replace" in ctx.flags or "L1:init-noreplace" in ctx.flags
-    assert len(ctx.outcomes) > 100, len(ctx.outcomes)
+    # ---- L2: every operator applied, drew from its environment, and (except the plain mutation, which is the
+    #      identity on valid individuals in the tree as found) changed something; degenerate k==n cases present
+    for op in SUBSET_OPS + (ISBX, IPM):
+        assert c.get(f"L2:trans:{op}", 0) > 0, op
+        assert f"L2:drew:{op}" in ctx.flags, op
+        if op != MUT:
+            assert c.get(f"L2:changed:{op}", 0) > 0, op
+    for op in SUBSET_OPS:
+        assert f"L2:k==n:{op}" in ctx.flags, op
+    # ---- L3
+    for cname, (modn, kind, multi, extra) in GA_CLASSES.items():
+        assert c.get(f"L3:runs:{cname}", 0) > 0, cname
+        if multi:
+            assert f"L3:front>1:{cname}" in ctx.flags, cname       # non-domination is not vacuous
+    for kind in ("subset", "real", "integer", "binary"):
+        assert f"L3:constrained-ok:{kind}" in ctx.flags, kind
+    assert len(ctx.outcomes) > 1000, len(ctx.outcomes)
+    ctx.count("L1:executions", sum(v for k, v in c.items() if k.startswith("L1:exec:")))
+    ctx.count("L2:transitions", sum(v for k, v in c.items() if k.startswith("L2:trans:")))
+    ctx.count("L3:ga-runs", sum(v for k, v in c.items() if k.startswith("L3:runs:")))
 
 
 def replay(case, ctx):
